@@ -1,6 +1,6 @@
 (* Props/C04.v — property C04: HSMS frames are bit-exact and reassembled independently of TCP segmentation. *)
 From SG Require Import Base.Prelude Base.Kinds Gen.ProtoConsts Spec.E4E37Frames Model.Secs2 Model.Frames Model.HsmsRx.
-From SG Require Import Proofs.FramesProofs Proofs.RxProofs.
+From SG Require Import Proofs.FramesProofs Proofs.RxProofs Base.PyRt Gen.PyHsmsHdr Proofs.PyHsmsHdrProofs.
 From Coq Require Import Lia.
 Open Scope N_scope.
 
@@ -55,3 +55,21 @@ Definition sample_m : hhdr * list N :=
 Example C04_sample_in_domain :
   frame_ok sample_m /\ List.concat [[0;0]; [0;13;255]; [255; 255; 255; 0; 0; 255; 255; 255; 255; 1; 2]; [3]] = List.concat (map enc_frame [sample_m]).
 Proof. split; [unfold frame_ok, hhdr_fields_ok, sample_m; cbn; repeat split; try lia; reflexivity|vm_compute; reflexivity]. Qed.
+
+(* The header functions are tied to the source by a theorem: HsmsHeader.encode and HsmsHeader.decode are translated statement by statement on
+   every run (harness/pyfuns.py -> Gen/PyHsmsHdr.v), with every `self.x` followed through its property and the __init__ chain to the
+   constructor argument it holds; as functions of the constructor's arguments they are the model's header functions, whose exactness and
+   round trip are the theorems above. *)
+Theorem C04_header_code_is_model :
+  (forall h, (do fs <- hh_encode (hh_of h); pack_fields hsms_header_format_enc fs) = hhdr_encode h) /\
+  (forall bs, hhdr_decode bs = do r <- unpack_fields hsms_header_format_dec bs;
+                               match r with
+                               | [r0; r1; r2; r3; r4; r5] => do a <- hh_decode r0 r1 r2 r3 r4 r5; Ok (hhdr_of a)
+                               | _ => Err EValue
+                               end).
+Proof. exact (conj hh_encode_is_model hh_decode_is_model). Qed.
+Print Assumptions C04_header_code_is_model.
+Example C04_header_code_sample :
+  hh_encode (hh_of (fst sample_m)) = Ok [65535; 255; 255; 0; 0; 4294967295]%Z /\
+  hh_decode 65535 255 255 0 0 4294967295 = Ok (hh_of (fst sample_m)) /\ hh_decode 0 0 0 0 8 0 = Err EValue.
+Proof. repeat split; vm_compute; reflexivity. Qed.
